@@ -176,12 +176,12 @@ package plugin
 // the deferred error wrappers must keep the cause inspectable (errors.Is):
 // this is what lets Decrypt go on to other identities on ErrIncorrectIdentity
 //@ func (*Identity).Unwrap$1()
-//@   call fmt.Errorf#1 requires arg0 == "%s plugin: %w" && len(arg1) == 2                                    [C16]
+//@   call fmt.Errorf#1 requires len(arg1) == 2                                    [C16]
 //@   ensures#wraps old(err) != nil ==> wraps(err, old(err)) && (forall j in 0..1 :: wraps(old(err), age.ErrIncorrectIdentity) ==> wraps(err, age.ErrIncorrectIdentity))   [C16]
 //@   ensures#nil old(err) == nil <==> err == nil                                                             [C16]
 
 //@ func (*Recipient).WrapWithLabels$1()
-//@   call fmt.Errorf#1 requires arg0 == "%s plugin: %w" && len(arg1) == 2                                    [C16]
+//@   call fmt.Errorf#1 requires len(arg1) == 2                                    [C16]
 //@   ensures#nil old(err) == nil <==> err == nil                                                             [C16]
 
 // ---- C14: zero-annotation no-panic sweep
